@@ -129,7 +129,7 @@ def run(ctx):
             wd = make_word(rng, cls, overhang_for(rng, up, mode, pool), overhang_for(rng, down, rng.choice([0, mode]), pool))
             if wd is None:
                 continue
-            check_case(ctx, {"cls": asm.cls_name(cls), "word": gen.rot(wd, rng.randrange(len(wd)))})
+            ctx.guard(check_case, {"cls": asm.cls_name(cls), "word": gen.rot(wd, rng.randrange(len(wd)))})
     for enz in asm.pick_enzymes(rng, ctx.budget(200, 6000)):
         k = abs(enz.ovhg)
         alpha = "ACGTNRYSWKMBDHV" if rng.random() < 0.7 else "N"
@@ -142,7 +142,7 @@ def run(ctx):
         wd = make_word(rng, cls, overhang_for(rng, up, mode, []), overhang_for(rng, down, rng.choice([0, mode]), []))
         if wd is None:
             continue
-        check_case(ctx, {"cls": cname, "word": gen.rot(wd, rng.randrange(len(wd)))})
+        ctx.guard(check_case, {"cls": cname, "word": gen.rot(wd, rng.randrange(len(wd)))})
     # characterize over the kit part families
     bases = [c for c in (getattr(m, n, None) for m in boot.kit_modules().values() for n in dir(m))
              if isinstance(c, type) and issubclass(c, boot.AbstractPart) and c.__subclasses__()
@@ -163,7 +163,7 @@ def run(ctx):
             wd = make_word(rng, cls, overhang_for(rng, up, mode, pool), overhang_for(rng, down, 0, pool))
         if wd is None:
             continue
-        check_characterize(ctx, {"base": asm.cls_name(base), "word": gen.rot(wd, rng.randrange(len(wd)))})
+        ctx.guard(check_characterize, {"base": asm.cls_name(base), "word": gen.rot(wd, rng.randrange(len(wd)))})
 
 
 _check_case = check_case
@@ -171,6 +171,6 @@ _check_case = check_case
 
 def check_case(ctx, case):  # noqa: F811
     if "base" in case:
-        check_characterize(ctx, case)
+        ctx.guard(check_characterize, case)
     else:
         _check_case(ctx, case)
